@@ -1,11 +1,11 @@
 #!/bin/bash
-# usage: confirm_mut.sh <Cxx> <A|B> <slot>
+# usage: [MUTBASE=/tmp/mut2] confirm_mut.sh <Cxx> <A|B> <slot> [name]
 # Independently confirms a seeded change: applies it in a scratch worktree, (1) the demo fails with it, (2) the existing
 # suite (129 stable tests, debug) passes with it, (3) the demo passes without it. Writes /tmp/mc/<name>.result
 set -u
 P=$1; V=$2; SLOT=${3:-0}
-NAME=$P$V
-SRC=/tmp/mut/$P/_out/$V
+NAME=${4:-$P$V}
+SRC=${MUTBASE:-/tmp/mut}/$P/_out/$V
 WT=/tmp/mc/wt-$NAME
 export CARGO_TARGET_DIR=/tmp/mc/target-$SLOT CARGO_NET_OFFLINE=true
 mkdir -p /tmp/mc
